@@ -385,12 +385,62 @@ def known_probe_ids():
         return set()
 
 
+def sync_report(s, token):
+    from xml.etree import ElementTree as ET
+
+    body = ("<D:sync-collection xmlns:D='DAV:'><D:sync-token>%s</D:sync-token><D:sync-level>1</D:sync-level>"
+            "<D:prop><D:getetag/></D:prop></D:sync-collection>" % (token or "")).encode()
+    r = s.request("REPORT", CAL, {"Content-Type": "text/xml"}, body)
+    if r["status"] != 207:
+        return r["status"], None, None, None
+    ms = ET.fromstring(r["body"])
+    changed, removed = {}, set()
+    for resp in ms.findall("{DAV:}response"):
+        href = urllib.parse.unquote(resp.find("{DAV:}href").text)
+        st = resp.find("{DAV:}status")
+        et = resp.find(".//{DAV:}getetag")
+        if resp.find("{DAV:}error") is not None or (st is not None and any(c in (st.text or "") for c in (" 403", " 412", " 409"))):
+            return 207, None, None, None   # a refusal wrapped in a multistatus (DAV:error)
+        if st is not None and "404" in (st.text or ""):
+            removed.add(href)
+        else:
+            changed[href] = et.text if et is not None else None
+    tok = ms.find("{DAV:}sync-token")
+    return 207, changed, removed, (tok.text if tok is not None else None)
+
+
+def check_sync(s, prefix, M, tokens, step, log):
+    now = {n: e for n, (b, e) in M.items()}
+    for tok, snap in [(None, {})] + tokens[-3:]:
+        st, changed, removed, new_tok = sync_report(s, tok)
+        if changed is None:
+            return dict(step=step, expected=f"sync-collection from a token this server issued ({tok}) answers 207", observed=st, log=log)
+        base = prefix + CAL
+        want_changed = {base + n: e for n, e in now.items() if snap.get(n) != e}
+        want_removed = {base + n for n in snap if n not in now}
+        got_changed = {h: e for h, e in changed.items() if h != base and h != base.rstrip("/")}
+        if got_changed != want_changed or removed != want_removed:
+            return dict(step=step, expected=f"sync since {tok}: changed {want_changed}, removed {sorted(want_removed)}",
+                        observed=f"changed {got_changed}, removed {sorted(removed)}", log=log)
+        if not new_tok:
+            return dict(step=step, expected="a new sync-token", observed="none", log=log)
+    # a token this server never issued is refused (valid-sync-token), never answered with a list
+    st, changed, removed, _ = sync_report(s, "0123456789abcdef0123456789abcdef01234567")
+    if changed is not None:
+        return dict(step=step, expected="an unknown sync-token is refused (valid-sync-token precondition)",
+                    observed=f"207 with changed {changed}, removed {sorted(removed)}", log=log)
+    if not tokens or tokens[-1][1] != now:
+        tokens.append((new_tok, now))
+    return None
+
+
 def model_run(hist, prefix=""):
     """Run a PUT/DELETE/GET history on one calendar and compare with the member-map model."""
     s = Server(prefix)
     M = {}      # name -> (body, etag)
     old = {}
     log = []
+    tokens = []  # (sync-token, {name: etag}) as handed out by earlier reports
     try:
         for step, op in enumerate(hist):
             kind = op[0]
@@ -483,6 +533,10 @@ def model_run(hist, prefix=""):
                 m = re.search(re.escape((prefix + CAL + urllib.parse.quote(n)).encode()) + rb"</[^>]*href>.*?getetag>([^<]*)<", pf["body"], re.S)
                 if m and m.group(1).replace(b"&quot;", b'"') != M[n][1].encode():
                     return dict(step=step, expected=f"PROPFIND getetag {M[n][1]}", observed=m.group(1), log=log)
+            # C07: sync-collection from every recorded token reports exactly what changed since then
+            bad = check_sync(s, prefix, M, tokens, step, log)
+            if bad:
+                return bad
             # C17: multiget of every emitted href (+ one that does not exist) answers each exactly once
             asked = [prefix + CAL + urllib.parse.quote(n) for n in sorted(M)] + [prefix + CAL + "missing.ics"]
             body = ("<C:calendar-multiget xmlns:D='DAV:' xmlns:C='urn:ietf:params:xml:ns:caldav'><D:prop><D:getetag/>"
